@@ -225,9 +225,22 @@ def mk_mrep(rep, model, idx):
         return functools.partial(F_eval, rep[1])
     if rep[0] == "meth":
         f = rep[1]
+        if idx % 2 == 0:
+            # a bound method with a further, defaulted parameter (`def population(self, kind=None)`): it is called without
+            # arguments; handing it the model as `kind` changes what it reports
+            def meth(self, kind=None):
+                return F_eval(f, self) if kind is None else ("called-with-argument",)
+
+            return types.MethodType(meth, model)
         return types.MethodType(lambda self: F_eval(f, self), model)
     _, k, d, g = rep
     return [types.MethodType(lambda self, k_, d_: G_eval(g, k_, d_, self), model), [k, d]]
+
+
+def tname(T, i):
+    """name of the i-th agent-type reporter of class T.  Odd classes reuse the names of the agent-level reporters (a0, a1, …):
+    the two kinds of reporter live in separate tables of the DataCollector and must not disturb each other"""
+    return f"a{i}" if T % 2 == 1 else f"t{T}_{i}"
 
 
 def mk_arep(rep, base_cls, tag):
@@ -396,7 +409,7 @@ class World:
         ar = {f"a{i}": mk_arep(r, base, f"a{i}") for i, r in enumerate(spec.areps)}
         tr = {}
         for T, reps in spec.treps:
-            tr[self.type_key(T)] = {f"t{T}_{i}": mk_arep(r, base, f"t{T}_{i}") for i, r in enumerate(reps)}
+            tr[self.type_key(T)] = {tname(T, i): mk_arep(r, base, tname(T, i)) for i, r in enumerate(reps)}
         tabs = {}
         for t, cols in spec.tables:
             tabs[f"T{t}"] = [f"c{c}" for c in cols]
@@ -557,7 +570,7 @@ class World:
             reps = dict(sp.treps).get(T)
             if reps is None:
                 return "ok none" if (df.shape == (0, 0)) else "ok weird-empty"
-            return fmt_rowframe(df, [f"t{T}_{i}" for i in range(len(reps))])
+            return fmt_rowframe(df, [tname(T, i) for i in range(len(reps))])
         if k == "tab" and len(ws) == 2:
             t = to_nat(ws[1])
             try:
@@ -895,8 +908,14 @@ class ScriptModel(mesa.Model):
         except BadOp:
             pass
 
+    # no generated run takes more than max_steps <= 6 steps: a model stepped far beyond that (a changed stepping rule) stops
+    # itself, so that the run ends and the rows show the overrun instead of the scenario hitting the watchdog
+    STEP_CAP = 40
+
     def step(self):
         self.user_steps += 1
+        if self.user_steps >= self.STEP_CAP:
+            self.running = False
         for ws in self._body:
             self._do(ws)
 
